@@ -28,9 +28,17 @@ def config_diff(a, b):
     if l is None:
       out.append("%s:missing" % type(lb).__name__)
       continue
+    def _d(o):
+      if hasattr(o, "get_config"):
+        return {"class_name": type(o).__name__, "config": o.get_config()}
+      if isinstance(o, (np.floating, np.integer)):
+        return o.item()
+      if isinstance(o, np.ndarray):
+        return o.tolist()
+      return repr(o)
     try:
-      ca = json.loads(json.dumps(l.get_config(), sort_keys=True, default=repr))
-      cb = json.loads(json.dumps(lb.get_config(), sort_keys=True, default=repr))
+      ca = json.loads(json.dumps(l.get_config(), sort_keys=True, default=_d))
+      cb = json.loads(json.dumps(lb.get_config(), sort_keys=True, default=_d))
     except Exception:  # pylint: disable=broad-except
       continue
     keys = [k for k in sorted(set(ca) | set(cb)) if ca.get(k) != cb.get(k)]
